@@ -3,7 +3,7 @@ and encoding the built model for the OCaml driver."""
 import math, random
 from harness.common import fhex
 
-SPECIES_POOL = ["A", "B", "C", "D", "E1", "G", "X_1", "Y2z"]
+SPECIES_POOL = ["A", "B", "C", "D", "Ez", "G", "X_1", "Y2z"]
 HILL = ["hillpositive", "hillnegative", "proportionalhillpositive", "proportionalhillnegative"]
 
 def dyadic(rng, lo=0, hi=8, den=4):
@@ -36,10 +36,13 @@ def gen_reaction(rng, species, kinds, allow_delay=False, max_order=4, named=True
         params["s1"] = rng.choice(species)
         if kind.startswith("proportional"): params["d"] = rng.choice(species)
     elif kind == "general":
-        pool = general_pool or ["kg*%s", "kg*%s*%s", "kg*%s/(1+%s)", "kg*%s^2/(Kg+%s^2)", "kg+%s*0", "kg*exp(-%s/Kg)", "kg*Heaviside(%s-1.5)", "kg*max(%s,%s)", "kg*abs(%s-%s)"]
+        pool = general_pool or ["kg*%s", "kg*%s*%s", "kg*%s/(1+%s)", "kg*%s^2/(Kg+%s^2)", "kg+%s*0", "kg*exp(-%s/Kg)", "kg*Heaviside(%s-1.5)", "kg*Max(%s,%s)", "kg*abs(%s-%s)"]
         tpl = rng.choice(pool)
         n = tpl.count("%s")
-        rate = tpl % tuple(rng.choice(species) for _ in range(n))
+        if n >= 2 and len(species) >= 2: chosen = tuple(rng.sample(species, 2)) + tuple(rng.choice(species) for _ in range(n - 2))
+        elif n >= 2 and ("-" in tpl or "Max" in tpl or "Min" in tpl): tpl = "kg*%s"; n = 1; chosen = (species[0],)
+        else: chosen = tuple(rng.choice(species) for _ in range(n))
+        rate = tpl % chosen
         kname, Kname = "kg_" + rid, "Kg_" + rid
         rate = rate.replace("kg", kname).replace("Kg", Kname)
         params["rate"] = rate; pvals[kname] = val("k")[1]
